@@ -27,6 +27,53 @@ Fixpoint script_fun (U : list event) (sc : list (N * list pans)) : option (N -> 
       end
   end.
 
+(* For CheckStateResponse / CheckSendJoinResponse the answer to a request may also carry events
+   that were not asked for (fix F82: they are remembered under their own IDs and otherwise
+   ignored; an answer without the requested event counts as "nothing"). The specification's
+   provider function picks the event with the requested ID. To stay a function of the ID the
+   script must be consistent: an unrequested event d is the script's answer for its own ID as
+   well, and no other event of the scenario has d's ID. *)
+Definition pick_resp (U : list event) (id : N) (answers : list pans) : option presp :=
+  match answers with
+  | [] => Some RNone
+  | [AError] => Some RErr
+  | [AEvents us] =>
+      match filter (fun a => eid a =? id) (evs_of U us) with
+      | [] => Some RNone
+      | [a] => Some (REv a)
+      | _ => None
+      end
+  | _ => None
+  end.
+
+Fixpoint script_fun_lenient (U : list event) (sc : list (N * list pans)) : option (N -> presp) :=
+  match sc with
+  | [] => Some (fun _ => RNone)
+  | (id, answers) :: r =>
+      match pick_resp U id answers, script_fun_lenient U r with
+      | Some p, Some f => Some (fun x => if x =? id then p else f x)
+      | _, _ => None
+      end
+  end.
+
+Definition extras_consistent (U : list event) (sc : list (N * list pans)) (f : N -> presp) : bool :=
+  forallb (fun entry =>
+    match snd entry with
+    | [AEvents us] =>
+        forallb (fun d =>
+          (eid d =? fst entry) ||
+          (match f (eid d) with REv d' => uid d' =? uid d | _ => false end
+           && forallb (fun u => negb (eid u =? eid d) || (uid u =? uid d)) U))
+          (evs_of U us)
+    | _ => true
+    end) sc.
+
+Definition script_fun_extras (U : list event) (sc : list (N * list pans)) : option (N -> presp) :=
+  match script_fun_lenient U sc with
+  | Some f => if extras_consistent U sc f then Some f else None
+  | None => None
+  end.
+
 Definition tuple_eqb (a b : event) : bool := same_tuple a b.
 
 Fixpoint has_dup_tuple (l : list event) : bool :=
@@ -64,7 +111,7 @@ Definition spec_state (s : scen) (alt : bool) (prov : N -> presp) : option (list
   let A := untrusted_events (dec_items U (jfield "A" (s_json s))) in
   let S := untrusted_events (dec_items U (jfield "S" (s_json s))) in
   let all := A ++ S in
-  if existsb (fun e => negb (is_state e)) all || has_dup_tuple S then None
+  if existsb (fun e => negb (is_state e)) all || has_dup_tuple S || negb (one_room all) then None
   else
     let P := eff_prov (s_hasprov s) prov in
     let g := good_id (sig_inst s) (allowed_inst s alt) P all in
@@ -72,7 +119,7 @@ Definition spec_state (s : scen) (alt : bool) (prov : N -> presp) : option (list
 
 Definition prop_csr (args : list bytes) : bytes :=
   with_scen_prop args (fun s alt obs =>
-    match script_fun (s_univ s) (p_script (init_ps s)) with
+    match script_fun_extras (s_univ s) (p_script (init_ps s)) with
     | None => bs "n/a"
     | Some prov =>
         match spec_state s alt prov with
@@ -83,7 +130,7 @@ Definition prop_csr (args : list bytes) : bytes :=
 
 Definition prop_sj (args : list bytes) : bytes :=
   with_scen_prop args (fun s alt obs =>
-    match script_fun (s_univ s) (p_script (init_ps s)) with
+    match script_fun_extras (s_univ s) (p_script (init_ps s)) with
     | None => bs "n/a"
     | Some prov =>
         match spec_state s alt prov with
@@ -91,7 +138,7 @@ Definition prop_sj (args : list bytes) : bytes :=
         | Some (a, st) =>
             let join := ev_of (s_univ s) (jN (jfield "J" (s_json s))) in
             let P := eff_prov (s_hasprov s) prov in
-            if allowed_inst s alt join (join_auth_events P a st join) && allowed_inst s alt join st
+            if allowed_by (allowed_inst s alt) join (join_auth_events P a st join) && allowed_inst s alt join st
             then verdict (bs "ok a=" ++ p_ids a ++ bs " s=" ++ p_ids st) obs
             else verdict (bs "err") obs
         end
@@ -112,7 +159,7 @@ Fixpoint reach_n (n : nat) (prov : N -> presp) (root : event) (S : list event) :
 Definition chain_ok_b (allowed : event -> list event -> bool) (prov : N -> presp) (root c : event) : bool :=
   forallb (fun x => (x =? eid root) || negb (is_err (prov x))) (auth_ids c)
   && forallb is_state (chain_auth_list prov root c)
-  && allowed c (chain_auth_list prov root c).
+  && allowed_by allowed c (chain_auth_list prov root c).
 
 (* one round per event of the universe reaches everything reachable *)
 Definition prop_chain (args : list bytes) : bytes :=
@@ -126,7 +173,8 @@ Definition prop_chain (args : list bytes) : bytes :=
         then verdict (bs "ok") obs else verdict (bs "err") obs
     end).
 
-(* VerifyAuthRulesAtState per the property text, from the state provider's script *)
+(* VerifyAuthRulesAtState per the property text, from the state provider's script: allowed by
+   the state before the event (or, if permitted, all its auth events belong to that state) *)
 Definition vras_want (s : scen) (alt : bool) (e : event) (av : bool) : bool :=
   match find_sp (jlist (jfield "sp" (s_json s))) (eid e) with
   | None => false
@@ -136,9 +184,8 @@ Definition vras_want (s : scen) (alt : bool) (e : event) (av : bool) : bool :=
           (av && forallb (fun a => mem_N a (map jN ids)) (auth_ids e)) ||
           match jnth 2 j with
           | JArr l =>
-              let m := dec_state_map (s_univ s) l in
-              forallb is_state (lookup_list m (auth_ids e))
-              && allowed_inst s alt e (lookup_list m (auth_ids e))
+              let st := state_events_of (dec_state_map (s_univ s) l) in
+              tuples_distinct st && allowed_inst s alt e st
           | _ => false
           end
       | _ => false
@@ -185,7 +232,7 @@ Fixpoint spec_bf_take (s : scen) (alt : bool) (prov : N -> presp) (evs : list ev
   | [] => got
   | e :: r =>
       let keep := match spec_class s alt prov e with LOk | LSig => true | _ => false end in
-      if keep && negb (existsb (fun g => eid g =? eid e) got)
+      if keep && (eroom e =? jN (jfield "room" (s_json s))) && negb (existsb (fun g => eid g =? eid e) got)
       then spec_bf_take s alt prov r (got ++ [e]) else spec_bf_take s alt prov r got
   end.
 
@@ -220,6 +267,17 @@ Definition prop_bf (args : list bytes) : bytes :=
           | _ => spec_bf s alt prov (jN (jfield "vk" (s_json s)) =? 1) (jZ (jfield "limit" (s_json s)))
                          (jNs (jfield "servers" (s_json s))) [] false
           end in
-        verdict (bs "ids=" ++ pNs "," (sort_N (map eid got)) ++ bs " n=" ++ pN (N.of_nat (length got))
-                 ++ (if err then bs " lasterr" else bs " noerr")) obs
+        let v := verdict (bs "ids=" ++ pNs "," (sort_N (map eid got)) ++ bs " n=" ++ pN (N.of_nat (length got))
+                 ++ (if err then bs " lasterr" else bs " noerr")) obs in
+        (* Finding F86 (recorded, not repaired): the code deliberately passes on events whose
+           signature check failed, and LoadAndVerify never ran the auth checks on them. The
+           property's title asks that only events passing the signature AND auth checks leave. *)
+        let unsigned := filter (fun e => match spec_class s alt prov e with LSig => true | _ => false end) got in
+        match unsigned with
+        | [] => v
+        | _ => if bytes_eqb v (bs "ok")
+               then bs "FAIL-F86 returned although the signature check failed (never auth-checked): ids="
+                    ++ pNs "," (sort_N (map eid unsigned))
+               else v
+        end
     end).
